@@ -13,6 +13,8 @@ Lemma optN_eqb_refl o : optN_eqb o o = true.
 Proof. destruct o; cbn; auto using N.eqb_refl. Qed.
 Lemma optZ_eqb_refl o : optZ_eqb o o = true.
 Proof. destruct o; cbn; auto using Z.eqb_refl. Qed.
+Lemma text_eqb_refl t : text_eqb t t = true.
+Proof. induction t as [|c t IH]; cbn [text_eqb]; [reflexivity | rewrite N.eqb_refl; exact IH]. Qed.
 
 (* ---- BigNum ---- *)
 Theorem judge_bn_accepts op a b : a < two64 -> b < two64 ->
@@ -46,7 +48,15 @@ Proof.
         try (injection O as <-; unfold int_new, int_new_negative, int_new_i32; rewrite Z.eqb_refl; reflexivity).
       unfold bigint_as_int in O. destruct (Z.abs z0 <? two64Z)%Z; [|discriminate]. injection O as <-.
       rewrite Z.eqb_refl. reflexivity. }
-    change (io_val (int_observe z)) with z. rewrite V, (judge_int_obs_accepts z R).
+    assert (TX : int_src_text_ok src z = true).
+    { unfold int_obtain in O. destruct src; cbn [int_src_text_ok int_obtain_gen] in *; try reflexivity.
+      - unfold int_from_str in O. destruct (parse_i128 s) as [x| | |] eqn:P; cbn [bind] in O; try discriminate.
+        destruct (int_in_range x); [|discriminate]. injection O as <-.
+        destruct (parse_i128_canon s x P) as [_ C]. rewrite C. apply text_eqb_refl.
+      - unfold meta_key_int_gen in O. destruct (parse_i128 s) as [x| | |] eqn:P; try discriminate.
+        destruct meta_key_checked; [destruct ((- int_max <=? x)%Z && (x <=? int_max)%Z); [|discriminate]|]; injection O as <-;
+          destruct (parse_i128_canon s x P) as [_ C]; rewrite C; apply text_eqb_refl. }
+    change (io_val (int_observe z)) with z. rewrite V, TX, (judge_int_obs_accepts z R). cbn [negb].
     destruct (z =? int_min)%Z eqn:M.
     + apply Z.eqb_eq in M. subst z. right. split; [|reflexivity]. destruct src; reflexivity.
     + left. destruct src; reflexivity.
@@ -277,4 +287,37 @@ Proof.
   destruct (add3_r_cases a b c Wa Wb Wc) as [[y [E2 [N2 [C2 [Q2 _]]]]] | [E2 N2]]; rewrite E1, E2; try tauto.
   rewrite value_eqb_sem_keys_intro by (split; [lia | intros p n; rewrite Q1, Q2; reflexivity]).
   rewrite C1, N.eqb_refl, all_keys_intro by (intros p n; rewrite Q1; apply N.eqb_refl). reflexivity.
+Qed.
+
+(* ---- text entry points ---- *)
+Theorem judge_bnstr_accepts s : judge_bnstr s (model_bnstr s) = Holds.
+Proof.
+  unfold judge_bnstr, model_bnstr, bn_from_str. destruct (parse_u64 s) as [n| | |] eqn:P; try reflexivity.
+  - destruct (parse_u64_canon s n P) as [B C]. rewrite C, text_eqb_refl. replace (n <? two64) with true by lia. reflexivity.
+  - exfalso. unfold parse_u64 in P. destruct (match s with [] => [] | c :: r => if c =? ch_plus then r else s end); [discriminate|].
+    destruct (parse_digits _ 0) as [v|]; [destruct (v <? two64)|]; discriminate.
+  - exfalso. unfold parse_u64 in P. destruct (match s with [] => [] | c :: r => if c =? ch_plus then r else s end); [discriminate|].
+    destruct (parse_digits _ 0) as [v|]; [destruct (v <? two64)|]; discriminate.
+Qed.
+
+Lemma parse_biguint_total s : parse_biguint s = Err \/ exists n, parse_biguint s = Ok n.
+Proof.
+  unfold parse_biguint. destruct (match s with [] => s | c :: tail => if (c =? ch_plus) && negb (starts_with ch_plus tail) then tail else s end) as [|c r]; [left; reflexivity|].
+  destruct (c =? ch_underscore); [left; reflexivity|]. destruct (parse_digits_us (c :: r) 0); [right; eauto | left; reflexivity].
+Qed.
+
+Theorem judge_bistr_accepts s : judge_bistr s (model_bistr s) = Holds.
+Proof.
+  unfold judge_bistr, model_bistr, bigint_from_str. destruct (parse_bigint s) as [z| | |] eqn:P; try reflexivity.
+  - rewrite bigint_decimal_roundtrip, resZ_eqb_refl, (parse_bigint_canon s z P), text_eqb_refl. reflexivity.
+  - exfalso. unfold parse_bigint in P. destruct s as [|c tail].
+    + destruct (parse_biguint_total []) as [E | [n E]]; rewrite E in P; discriminate.
+    + destruct (c =? ch_minus).
+      * destruct (parse_biguint_total (if starts_with ch_plus tail then c :: tail else tail)) as [E | [n E]]; rewrite E in P; discriminate.
+      * destruct (parse_biguint_total (c :: tail)) as [E | [n E]]; rewrite E in P; discriminate.
+  - exfalso. unfold parse_bigint in P. destruct s as [|c tail].
+    + destruct (parse_biguint_total []) as [E | [n E]]; rewrite E in P; discriminate.
+    + destruct (c =? ch_minus).
+      * destruct (parse_biguint_total (if starts_with ch_plus tail then c :: tail else tail)) as [E | [n E]]; rewrite E in P; discriminate.
+      * destruct (parse_biguint_total (c :: tail)) as [E | [n E]]; rewrite E in P; discriminate.
 Qed.
